@@ -36,7 +36,16 @@ pub enum RopeOp {
   Slice { lo: Option<(usize, bool)>, hi: Option<(usize, bool)>, keep: bool },
   /// `byte_slice_unchecked` on a range that is valid by construction
   /// (percentages of the current length, snapped to char boundaries)
-  Unchecked { lo_pct: u8, hi_pct: u8, keep: bool },
+  Unchecked {
+    lo_pct: u8,
+    hi_pct: u8,
+    keep: bool,
+    /// how the (valid) range a..b is written: 0 `a..b`, 1 `(Excluded(a-1), Excluded(b))`
+    /// when a > 0, 2 `a..=b-1` when b > a, 3 unbounded ends where they apply,
+    /// 4 `(Excluded(a-1), Included(b-1))` — every form denotes the same bytes
+    #[serde(default)]
+    form: u8,
+  },
   GetByte(usize),
   CharIndices,
   Lines,
@@ -110,6 +119,7 @@ pub fn gen_rope_case(rng: &mut Rng) -> RopeCase {
         lo_pct: if rng.chance(150) { 0 } else { rng.below(101) as u8 },
         hi_pct: if rng.chance(200) { 100 } else { rng.below(101) as u8 },
         keep: rng.chance(400),
+        form: if rng.chance(500) { 0 } else { 1 + rng.below(4) as u8 },
       },
       80..=83 => RopeOp::GetByte(pos(rng)),
       84..=87 => RopeOp::CharIndices,
@@ -233,7 +243,7 @@ fn run_program<'a>(arena: &'a [String], ops: &[RopeOp], counters: &mut Counters)
           (None, Some(_)) => return Some(format!("op {}: valid range {:?}..{:?} rejected", n, lo, hi)),
         }
       }
-      RopeOp::Unchecked { lo_pct, hi_pct, keep } => {
+      RopeOp::Unchecked { lo_pct, hi_pct, keep, form } => {
         let len = model.len();
         let mut a = len * (*lo_pct as usize) / 100;
         let mut b = len * (*hi_pct as usize) / 100;
@@ -248,8 +258,21 @@ fn run_program<'a>(arena: &'a [String], ops: &[RopeOp], counters: &mut Counters)
         }
         counters.inc("rope:unchecked_slices");
         // in-range, ordered, on char boundaries: the documented safety contract holds
+        let lo_b = match form {
+          1 | 4 if a > 0 => Bound::Excluded(a - 1),
+          3 if a == 0 => Bound::Unbounded,
+          _ => Bound::Included(a),
+        };
+        let hi_b = match form {
+          2 | 4 if b > a => Bound::Included(b - 1),
+          3 if b == len => Bound::Unbounded,
+          _ => Bound::Excluded(b),
+        };
+        if !matches!((lo_b, hi_b), (Bound::Included(_), Bound::Excluded(_))) {
+          counters.inc("rope:unchecked_slices_other_range_forms");
+        }
         #[allow(unsafe_code)]
-        let r = unsafe { rope.byte_slice_unchecked(a..b) };
+        let r = unsafe { rope.byte_slice_unchecked((lo_b, hi_b)) };
         if r.to_string() != model[a..b] {
           return Some(format!("op {}: byte_slice_unchecked({}..{}) renders {:?}, model {:?}", n, a, b, r.to_string(), &model[a..b]));
         }
